@@ -465,6 +465,8 @@ RIME_DEPRECATED Bool RimeGetProperty(RimeSessionId session_id,
   if (str_value.empty())
     return False;
   strncpy(value, str_value.c_str(), buffer_size);
+  if (buffer_size > 0)
+    value[buffer_size - 1] = '\0';
   return True;
 }
 
@@ -530,6 +532,8 @@ RIME_DEPRECATED Bool RimeGetCurrentSchema(RimeSessionId session_id,
   if (!schema)
     return False;
   strncpy(schema_id, schema->schema_id().c_str(), buffer_size);
+  if (buffer_size > 0)
+    schema_id[buffer_size - 1] = '\0';
   return True;
 }
 
@@ -627,6 +631,8 @@ RIME_DEPRECATED Bool RimeConfigGetString(RimeConfig* config,
   string str_value;
   if (c->GetString(key, &str_value)) {
     std::strncpy(value, str_value.c_str(), buffer_size);
+    if (buffer_size > 0)
+      value[buffer_size - 1] = '\0';
     return True;
   }
   return False;
@@ -829,6 +835,8 @@ RIME_DEPRECATED void RimeGetUserDataSyncDir(char* dir, size_t buffer_size) {
   Deployer& deployer(Service::instance().deployer());
   string string_path = deployer.user_data_sync_dir().string();
   strncpy(dir, string_path.c_str(), buffer_size);
+  if (buffer_size > 0)
+    dir[buffer_size - 1] = '\0';
 }
 
 RIME_DEPRECATED Bool RimeConfigInit(RimeConfig* config) {
